@@ -482,6 +482,9 @@ func (qz *quantizer) maxDepth() int {
 	if qz.inlineAll {
 		return 7
 	}
+	if qz.stop != nil {
+		return 5 // helpers between the anchors are seen through; the anchors themselves stay opaque
+	}
 	return 3
 }
 
